@@ -446,7 +446,12 @@ func c15InotifyReAdd(c *core.Ctx, rng *rand.Rand) {
 		c.Broken(err.Error())
 		return
 	}
-	defer func() { w.Close() }()
+	deadlocked := false
+	defer func() {
+		if !deadlocked { // a Watcher whose lock is held for ever cannot be closed either
+			w.Close()
+		}
+	}()
 	go func() {
 		for range w.Errors {
 		}
@@ -527,6 +532,7 @@ func c15InotifyReAdd(c *core.Ctx, rng *rand.Rand) {
 					if len(g) > 1500 {
 						g = g[:1500]
 					}
+					deadlocked = true
 					c.Violate("inotify-readd-deadlock", fmt.Sprintf("variant %d (%s) history %v: the last AddWith never returned: it waits for a lock below register(), which runs with the Watcher's lock held", variant, target, hist), g)
 				} else {
 					c.Inconclusive(fmt.Sprintf("re-Add history %v: AddWith not returned at the watchdog", hist))
